@@ -51,13 +51,14 @@ def _run_chunk(args):
         except Exception as e:                        # pragma: no cover
             out.append((i, ('error', 'get_model %s: %s' % (type(e).__name__, e))))
             continue
-        signal.setitimer(signal.ITIMER_REAL, timeout)
+        signal.setitimer(signal.ITIMER_REAL, timeout, 1.0)   # repeats: a raise swallowed by a __del__ fires again
         try:
             rs = model.parse(q, ref) if rec == 'DateTime' else model.parse(q)
             signal.setitimer(signal.ITIMER_REAL, 0)
             spans = [(r.start, r.end, r.text, r.type_name) for r in rs if r is not None]
             out.append((i, ('ok', spans, sum(1 for r in rs if r is None))))
         except QueryTimeout:
+            signal.setitimer(signal.ITIMER_REAL, 0)
             out.append((i, ('timeout',)))
         except Exception as e:
             signal.setitimer(signal.ITIMER_REAL, 0)
